@@ -19,6 +19,7 @@ pub mod e3;
 pub mod e3c;
 pub mod e3o;
 pub mod e3cfg;
+pub mod e3s;
 pub mod pure_c07f;
 pub mod pure_c17;
 pub mod pure_c18;
